@@ -17,6 +17,7 @@ func init() {
 func c05(c *q.Ctx) {
 	poolMapOwner(c)
 	poolRollback(c)
+	reloadTotalRules(c)
 	poolReload(c)
 	metaCopiesDistinct(c)
 	blockCacheCoherent(c)
